@@ -32,6 +32,13 @@ def cases(tier, seed):
     for i in range(4000 if tier == "quick" else 80000):
         body = [G.random_syntax_stmt(rng, 4, leaves) for _ in range(rng.randint(1, 6))]
         out.append(("r", relabel(body, [0])))
+    # statements that a LATER stage rejects (assignment to a parameter: E530; a call with a wrong number of
+    # arguments: E511; an undefined name is an EARLIER stage and hides the statement) in every position: the
+    # placement rules are judged first
+    leaves_o = leaves + [('raw', 'p = 3;'), ('raw', 'helper(r, r);'), ('raw', 'r = helper(r);')]
+    for i in range(1500 if tier == "quick" else 30000):
+        body = [G.random_syntax_stmt(rng, 3, leaves_o) for _ in range(rng.randint(1, 5))]
+        out.append(("o", relabel(body, [0])))
     return out, nex, maxn
 
 
@@ -47,7 +54,10 @@ def run(tier):
         return ck.finish()
     bodies, nex, maxn = cases(tier, ck.seed)
     ck.log("cases: %d (exhaustive part %d, <=%d nodes)" % (len(bodies), nex, maxn))
-    srcs = [("%s%d" % (k, i), G.program(b)) for i, (k, b) in enumerate(bodies)]
+    def prog(k, b):
+        if k != "o": return G.program(b)
+        return "fn helper(a: i32) -> i32\n{\n\treturn: a\n}\n" + G.program(b).replace("fn main() -> i32", "fn main(p: i32) -> i32")
+    srcs = [("%s%d" % (k, i), prog(k, b)) for i, (k, b) in enumerate(bodies)]
     impl = C.run_harness("front", srcs, ck.work)
     items = [("syntax", cid, impl[cid][1]) for cid, _ in srcs if cid in impl and len(impl[cid]) >= 2 and impl[cid][1].startswith("(")]
     model = C.run_model(items, ck.work)
@@ -62,6 +72,10 @@ def run(tier):
             real, lints = verdict[len("err codes="):], None
         else:
             ck.violation("impl-failure:" + verdict.split(" ")[0], "implementation did not produce a verdict: " + verdict, src); continue
+        if cid.startswith("o"):
+            # only the placement codes are compared here (the other stages add their own)
+            real = "[" + ",".join(x for x in real.strip("[]").split(",") if x in ("800", "801", "840")) + "]"
+            if verdict.startswith("err") : lints = None
         dist[real + ("" if lints in (None, "[]") else " lint" + lints)] += 1
         if not mm:
             ck.violation("tie-broken:model-error", "model failed: " + model.get(cid, "missing"), src); continue
@@ -73,7 +87,7 @@ def run(tier):
         elif lints is not None and mm["lintspec"] != lints:
             mism += 1
             ck.violation("wrong-lints", "accepted program raises lints %s, specification requires %s" % (lints, mm["lintspec"]), replay)
-        elif mm["model"] != real or (lints is not None and mm["lint"] != lints):
+        elif (mm["model"] != real or (lints is not None and mm["lint"] != lints)) and not cid.startswith("o"):
             mism += 1
             ck.violation("tie-broken:correspondence", "model and implementation differ although the specification is met", replay)
     if not proof_ok:
